@@ -134,6 +134,32 @@ fn main() {
                 std::process::exit(3);
             }
         },
+        "find-zuc-zero" => {
+            // off-line search for (key, iv) whose keystream generation hits the LFSR feedback == 0 case
+            use rayon::prelude::*;
+            let nkeys: u64 = args[2].parse().unwrap();
+            let words: usize = args[3].parse().unwrap();
+            let hits: Vec<String> = (0..nkeys)
+                .into_par_iter()
+                .filter_map(|i| {
+                    let kb = engine::expand_bytes(0x5a5a_0000_0000 + i, 32);
+                    let (k, iv): ([u8; 16], [u8; 16]) = (kb[..16].try_into().unwrap(), kb[16..].try_into().unwrap());
+                    let mut z = refimpl::zuc::Zuc::new(&k, &iv);
+                    let init_hits = z.zero_feedback_hits;
+                    for w in 0..words {
+                        z.next();
+                        if z.zero_feedback_hits > init_hits {
+                            return Some(format!("{{\"key\":\"{}\",\"iv\":\"{}\",\"word\":{},\"init_hits\":{}}}", hex::encode(k), hex::encode(iv), w, init_hits));
+                        }
+                    }
+                    if init_hits > 0 {
+                        return Some(format!("{{\"key\":\"{}\",\"iv\":\"{}\",\"word\":-1,\"init_hits\":{}}}", hex::encode(k), hex::encode(iv), init_hits));
+                    }
+                    None
+                })
+                .collect();
+            println!("[{}]", hits.join(",\n"));
+        }
         "replay" => {
             let code = replay_file(&args[2], Tier::Quick, seed, false);
             std::process::exit(code);
